@@ -23,7 +23,7 @@ GROUPED = {
 
 # single- or few-TU engines: engine -> list of (source, defines, objname) ; link extras
 SIMPLE = {
-    "segmentation": dict(tus=[("segmentation.cpp", [], "segmentation")]),
+    "segmentation": dict(tus=[("segmentation.cpp", [f"VF_GROUP={g}"], f"segmentation.g{g}") for g in range(5)]),
     "dynamic": dict(tus=[("dynamic.cpp", [f"VF_GROUP={g}"], f"dynamic.g{g}") for g in range(4)] + [("dynamic_main.cpp", [], "dynamic.main")]),
     "mapped": dict(tus=[("mapped.cpp", [f"VF_GROUP={g}"], f"mapped.g{g}") for g in range(4)] + [("mapped_main.cpp", [], "mapped.main")]),
     "multidim": dict(tus=[("multidim.cpp", [f"VF_GROUP={g}"], f"multidim.g{g}") for g in range(4)] + [("multidim_main.cpp", [], "multidim.main")]),
@@ -136,6 +136,87 @@ PLANS["C10"] = dict(
          "plus segment-key sets of chosen density so that the Elias-Fano low-bit width varies; the widths seen are counted) "
          "x the full query set; oracle = C01 and C02 clauses",
     assumptions=ASSUME_COMMON,
+)
+
+
+def seg_runs(prop, q, t):
+    def runs(tier):
+        if tier == "quick":
+            return [R("segmentation", "asan", q)]
+        return [R("segmentation", "asan", t), R("segmentation", "rel", t * 3)]
+    return runs
+
+
+PLANS["C03"] = dict(
+    runs=seg_runs("C03", 1500, 12000),
+    kinds={"returned_count_mismatch", "recorder_scopes", "recorded_points_not_increasing", "missing_key_point", "missing_closing_point",
+           "segments_not_increasing", "partition_broken", "residual_exceeds_epsilon"},
+    rule="case = one call of make_segmentation_par for one key type (u8..i64, float, double), one epsilon in {0,1,2,3,4,8,16,64,"
+         "128,1024}, one generated sorted array (families of C01 plus alternating-band and long-segment inputs; chunked cases "
+         "n = 2^15..2^20 with 1..20 chunks and runs across the chunk boundaries) with the add_point recorder armed; oracle: "
+         "segments in increasing first-key order, the recorded points are partitioned by the segments, every point within "
+         "eps + 1/2 (exact 128-bit rational arithmetic) resp. eps + 1 (+1e-6, long double, floating keys) of the reported line, "
+         "every distinct key recorded at its first-occurrence rank, closing point present; non-trivial = >= 2 segments or a "
+         "segment with >= 3 points",
+    assumptions=ASSUME_COMMON + ["the recorder (hook H1) reports exactly what add_point received: it is a 3-line addition in front of the call"],
+    technique="runtime monitoring: hooked event recorder (points fed to the builder) + exact rational oracle over generated inputs, under AddressSanitizer",
+)
+PLANS["C04"] = dict(
+    runs=lambda tier: seg_runs("C04", 1200, 8000)(tier) + [R("static_pgm", "asan", 150 if tier == "quick" else 1500)],
+    kinds={"segment_infeasible", "segment_not_maximal", "segment_starts_too_close", "too_many_nonmaximal_segments",
+           "segment_count_not_minimal", "segments_count_bound", "level_size_bound", "height_bound", "partition_broken",
+           "segments_not_increasing", "recorded_points_not_increasing", "recorder_scopes", "returned_count_mismatch"},
+    rule="integer keys; case as in C03; oracle independent of the builder: hull-sandwich feasibility test in 128-bit integers; "
+         "every segment feasible on its own points, infeasible with the next segment's first point added (except the last "
+         "segment of each chunk), number of segments == greedy optimum for sequential builds and <= optimum + chunks - 1 "
+         "otherwise, consecutive starts > 2*eps ranks apart, count <= n/(2eps+1)+c+1; plus segments_count() / upper-level sizes "
+         "of PGMIndex builds (static_pgm engine); non-trivial = >= 2 segments",
+    assumptions=ASSUME_COMMON + ["the recorder (hook H1) reports exactly what add_point received"],
+    technique="runtime monitoring: hooked event recorder + independent exact feasibility oracle (convex-hull sandwich) over generated inputs",
+)
+
+
+def dyn_runs(q, t):
+    def runs(tier):
+        if tier == "quick":
+            return [R("dynamic", "asan", q)]
+        return [R("dynamic", "asan", t), R("dynamic", "rel", t * 2)]
+    return runs
+
+
+DYN_RULE = ("case = one DynamicPGMIndex<K,V,PGMType> instantiation (8: u16..i64 keys; arithmetic, pointer and std::string values; "
+            "PGMType eps 1..64, eps_rec 0/1/4/64) x run-time base 2..128, buffer_level 0..3, index_level 0 / min_level+1 / +2 x one "
+            "history: bulk-load (empty or sorted pairs, repeated keys) then up to 400 (quick) / 5000 (thorough) "
+            "insert_or_assign / erase operations from 7 patterns (random on small key spaces, ascending, descending, "
+            "insert-all-then-erase-all, erase-only, tombstone shadowing script, hot keys), keys at lowest() and max-1; ")
+PLANS["C05"] = dict(
+    runs=dyn_runs(250, 1500),
+    kinds={"find_mismatch", "count_mismatch", "lower_bound_mismatch"},
+    rule=DYN_RULE + "observation = find / count / lower_bound of probe keys (keys of the history +-1, extremes, random) against std::map "
+         "after every one of the first ops, then every 5th/7th, full probe at the end; non-trivial = the history merged into "
+         "level >= min_level+2 and erased >= 1 live key",
+    assumptions=ASSUME_COMMON,
+    technique="runtime monitoring: history + executable sequential model (std::map) checked at every observation, under AddressSanitizer",
+)
+PLANS["C06"] = dict(
+    runs=dyn_runs(250, 1500),
+    kinds={"iteration_mismatch", "iteration_does_not_terminate", "iteration_too_short", "range_mismatch", "size_mismatch", "empty_mismatch"},
+    rule=DYN_RULE + "observation = full begin()..end() walk, walks from lower_bound(k) for probe keys incl. the largest key and "
+         "keys above it, range(lo,hi) for probe pairs / whole space / single key compared in both directions, size(), empty(), "
+         "each against std::map with a logical step bound; non-trivial = an observation was taken with >= 3 non-empty levels "
+         "and >= 1 live tombstone",
+    assumptions=ASSUME_COMMON,
+    technique="runtime monitoring: history + executable sequential model (std::map) checked at every observation, under AddressSanitizer",
+)
+PLANS["C15"] = dict(
+    runs=dyn_runs(250, 1500),
+    kinds={"lsm_invariant"},
+    rule=DYN_RULE + "after the bulk-load and after EVERY update the private state is read through the friend accessor (hook H3): "
+         "levels strictly sorted, buffer / level capacities, nothing beyond used_levels, every non-empty level >= index level owns "
+         "an index with n == level size, first_key == first key that brackets every key of the level, emptied levels' indexes "
+         "reset; non-trivial = >= 2 indexed levels non-empty at some point",
+    assumptions=ASSUME_COMMON + ["state is read only between API calls (quiescent points)"],
+    technique="runtime monitoring: structural-invariant walker on hooked private state after every operation of generated histories",
 )
 
 # properties not claimed (filled while the framework is being built; empty once every engine exists)
